@@ -226,7 +226,7 @@ impl Crate {
         }
         let first = segs[0].as_str();
         let rest = &segs[1..];
-        let mut cat = |mut base: Vec<String>| {
+        let cat = |mut base: Vec<String>| {
             base.extend(rest.iter().cloned());
             base
         };
